@@ -837,6 +837,22 @@ fn parse_v1_cgroup_cpu_quota_and_period_us(
     Some((quota, period))
 }
 
+#[cfg(folo_verif)]
+impl BuildTargetPlatform {
+    /// Verification hook: the real Linux platform logic over caller-supplied seams.
+    ///
+    /// The instance is leaked because the platform facade holds a `&'static` reference.
+    pub(crate) fn verif_new(
+        fs: std::sync::Arc<dyn crate::verif::SimFilesystem>,
+        bindings: std::sync::Arc<dyn crate::verif::SimBindings>,
+    ) -> &'static Self {
+        Box::leak(Box::new(Self::new(
+            BindingsFacade::Verif(bindings),
+            FilesystemFacade::Verif(fs),
+        )))
+    }
+}
+
 #[cfg(test)]
 #[cfg_attr(coverage_nightly, coverage(off))]
 mod tests {
